@@ -1322,9 +1322,10 @@ func (c *vfC14Ctx) subFirstFrame() {
 		return
 	}
 	if split != whole {
-		c.report("firstframe", "first-frame-split", "binary-first-frame-split:misdetected-as-text",
-			fmt.Sprintf("Server.checkProtocol: the first 64-byte LOCK frame of a connection delivered whole is served as %s (granted=%v, %d bytes replied); the same frame delivered in two reads of %d+%d bytes is handled as %s (err=%s, granted=%v, %d bytes replied): stream.Read returns %d < 64 bytes and the connection is classified as text protocol", whole.proto, whole.granted, whole.wrote, k, 64-k, split.proto, split.err, split.granted, split.wrote, k),
-			map[string]interface{}{"frame": vfC14Hex(frame), "split_at": k, "whole": fmt.Sprintf("%+v", whole), "split": fmt.Sprintf("%+v", split)}, 1)
+		// Not part of C14's statement: Server.checkProtocol sniffs the protocol
+		// from the size of the first read, so a first frame that arrives in two
+		// reads is served as text. Counted for the evidence, not a violation.
+		c.part.Add("firstframe_split_served_differently", 1)
 	}
 	c.nontrivial("firstframe", frame)
 }
